@@ -16,6 +16,12 @@ use std::time::{Duration, Instant};
 use verif_harness::*;
 
 const WATCHDOG: Duration = Duration::from_secs(6);
+/// watchdog expirations so far; blocked threads are leaked, so after a few the run is cut short
+static EXPIRED: std::sync::atomic::AtomicU32 = std::sync::atomic::AtomicU32::new(0);
+const MAX_EXPIRED: u32 = 6;
+fn expired() -> u32 {
+    EXPIRED.load(std::sync::atomic::Ordering::SeqCst)
+}
 const HOUR_MS: u64 = 3_600_000;
 
 // ------------------------------------------------------------------ thread observation
@@ -58,7 +64,10 @@ fn watchdog<R: Send + 'static>(f: impl FnOnce() -> R + Send + 'static) -> Option
     match rx.recv_timeout(WATCHDOG) {
         Ok(Ok(r)) => Some(r),
         Ok(Err(_)) => None,
-        Err(_) => None,
+        Err(_) => {
+            EXPIRED.fetch_add(1, std::sync::atomic::Ordering::SeqCst);
+            None
+        }
     }
 }
 
@@ -397,6 +406,9 @@ fn run_scenario(sc: &Scenario) -> Outcome {
     let mut stuck: Vec<String> =
         finished.iter().enumerate().filter(|(_, f)| !**f).map(|(i, _)| format!("thread {i}")).collect();
     let mut completed = stuck.is_empty();
+    if !completed {
+        EXPIRED.fetch_add(1, std::sync::atomic::Ordering::SeqCst);
+    }
     if completed {
         // the main thread drops the last handles: joins every ticker that is still installed
         match watchdog(move || {
@@ -826,7 +838,9 @@ fn main() {
                 &[20, HOUR_MS]
             };
             for &iv in ivs {
-                lifecycle(&mut s, ev, iv, target);
+                if expired() < MAX_EXPIRED {
+                    lifecycle(&mut s, ev, iv, target);
+                }
             }
         }
     }
@@ -840,8 +854,10 @@ fn main() {
     }
     // ---- the D9 parties at full speed
     let rounds = if a.thorough || a.extended { 2000 } else { 300 };
-    d9_stress(&mut s, rounds, 1);
-    d9_stress(&mut s, rounds / 4, HOUR_MS);
+    if expired() < MAX_EXPIRED {
+        d9_stress(&mut s, rounds, 1);
+        d9_stress(&mut s, rounds / 4, HOUR_MS);
+    }
     // ---- corpus, then random scenarios
     let corpus = vec![
         // the three-party deadlock of D9 (update / disable / ticker), as short sequences
@@ -874,17 +890,24 @@ fn main() {
     ];
     let mut r = Rng::new(a.seed);
     for sc in &corpus {
-        scenario_case(&mut s, sc, r.next());
+        if expired() < MAX_EXPIRED {
+            scenario_case(&mut s, sc, r.next());
+        }
     }
     let n = if a.thorough { 6000 } else if a.extended { 4000 } else { 600 };
     for _ in 0..n {
         let sc = gen_scenario(&mut r);
         let seed = r.next();
         scenario_case(&mut s, &sc, seed);
-        if s.failures.iter().filter(|f| f.class == "deadlock").count() >= 5 {
-            s.notes.push("stopped after 5 deadlocked scenarios (blocked threads are leaked)".into());
+        if expired() >= MAX_EXPIRED {
             break;
         }
+    }
+    if expired() >= MAX_EXPIRED {
+        s.notes.push(format!(
+            "run cut short after {} watchdog expirations (blocked threads cannot be killed and are leaked)",
+            expired()
+        ));
     }
     indicatif::verif_clock::set_auto_step_ns(0);
     s.finish();
